@@ -171,6 +171,51 @@ def is_inversion_of(node, src_name):
 
 
 # ------------------------------------------------------------------------------ string dispatch
+def _local_function_table(body, var):
+    """The table form with local functions:
+
+        def _a(): ...            (local functions without parameters)
+        def _b(): ...
+        table = (("A", _a), ("B", _b))
+        for name, fn in table:
+            if var == name:
+                return fn()
+        raise ...
+
+    is the chain [("A", body of _a), ("B", body of _b)] with the statements after the loop as the else-branch."""
+    local = {s.name: s for s in body if isinstance(s, ast.FunctionDef) and not s.args.args and not s.args.kwonlyargs}
+    tables = {}
+    for s in body:
+        if isinstance(s, ast.Assign) and len(s.targets) == 1 and isinstance(s.targets[0], ast.Name) and \
+                isinstance(s.value, (ast.Tuple, ast.List)) and s.value.elts and all(
+                    isinstance(e, (ast.Tuple, ast.List)) and len(e.elts) == 2 and isinstance(e.elts[0], ast.Constant)
+                    and isinstance(e.elts[0].value, str) and isinstance(e.elts[1], ast.Name) and e.elts[1].id in local
+                    for e in s.value.elts):
+            tables[s.targets[0].id] = [(e.elts[0].value, local[e.elts[1].id]) for e in s.value.elts]
+    for i, s in enumerate(body):
+        if isinstance(s, ast.For) and isinstance(s.iter, ast.Name) and s.iter.id in tables and not s.orelse and \
+                isinstance(s.target, (ast.Tuple, ast.List)) and len(s.target.elts) == 2 and \
+                all(isinstance(t, ast.Name) for t in s.target.elts) and len(s.body) == 1 and isinstance(s.body[0], ast.If):
+            kname, fname = s.target.elts[0].id, s.target.elts[1].id
+            test = s.body[0]
+            t = test.test
+            eq = isinstance(t, ast.Compare) and len(t.ops) == 1 and isinstance(t.ops[0], ast.Eq) and \
+                {norm(t.left), norm(t.comparators[0])} == {var, kname}
+            ret = len(test.body) == 1 and isinstance(test.body[0], ast.Return) and isinstance(test.body[0].value, ast.Call) and \
+                isinstance(test.body[0].value.func, ast.Name) and test.body[0].value.func.id == fname and \
+                not test.body[0].value.args and not test.body[0].value.keywords and not test.orelse
+            if eq and ret:
+                chain = [(k, strip_docstring_body(fn.body)) for k, fn in tables[s.iter.id]]
+                return chain, list(body[i + 1:]), s
+    return None
+
+
+def strip_docstring_body(stmts):
+    if stmts and isinstance(stmts[0], ast.Expr) and isinstance(stmts[0].value, ast.Constant) and isinstance(stmts[0].value.value, str):
+        return stmts[1:]
+    return stmts
+
+
 def string_dispatch(body, var, mod_globals=None, mod_funcs=None, mod_classes=None):
     """Extract ``if var == "a": ... elif var == "b": ... else: raise`` chains.
 
@@ -178,6 +223,9 @@ def string_dispatch(body, var, mod_globals=None, mod_funcs=None, mod_classes=Non
     the top level of ``body`` (descending into nothing).  ``mod_globals`` (name -> value node) lets the
     table form refer to a module-level literal dict."""
     d = _dict_dispatch(body, var, mod_globals, mod_funcs, mod_classes)
+    if d is not None:
+        return d
+    d = _local_function_table(body, var)
     if d is not None:
         return d
     allowed = None   # keys admitted by an earlier `if var not in [...]: raise`
@@ -279,6 +327,80 @@ def _accessor_table(fn, tables):
     return None
 
 
+def _if_chain_accessor(fn):
+    """`def acc(p): if p == "a": return A1, A2 ... if p == "b": ...; raise ...` -> (ast.Dict {"a": (A1, A2), ...}, raise body).
+    Locals assigned once inside a branch and starred tuples in the returned display are expanded."""
+    import copy
+    args = fn.args.args
+    if len(args) != 1:
+        return None
+    p_ = args[0].arg
+    body = [s for s in fn.body if not (isinstance(s, ast.Expr) and isinstance(s.value, ast.Constant))]
+    keys, vals = [], []
+    flat = []
+    for s in body:
+        cur = s
+        while isinstance(cur, ast.If):
+            flat.append(cur)
+            if len(cur.orelse) == 1 and isinstance(cur.orelse[0], ast.If):
+                cur = cur.orelse[0]
+            else:
+                if cur.orelse:
+                    flat.append(cur.orelse)
+                break
+        else:
+            flat.append(s)
+    raise_body = None
+    for item in flat:
+        if isinstance(item, list):
+            if item and isinstance(item[-1], ast.Raise):
+                raise_body = item
+                continue
+            return None
+        if isinstance(item, ast.Raise):
+            raise_body = [item]
+            continue
+        if not isinstance(item, ast.If):
+            return None
+        ks = _eq_keys(item.test, p_)
+        if not ks or not item.body or not isinstance(item.body[-1], ast.Return) or item.body[-1].value is None:
+            return None
+        local = {}
+        for st in item.body[:-1]:
+            if isinstance(st, ast.Assign) and len(st.targets) == 1 and isinstance(st.targets[0], ast.Name):
+                local[st.targets[0].id] = st.value
+            else:
+                return None
+
+        def expand(e):
+            if isinstance(e, ast.Name) and e.id in local:
+                return expand(local[e.id])
+            if isinstance(e, (ast.Tuple, ast.List)):
+                out = []
+                for x in e.elts:
+                    if isinstance(x, ast.Starred):
+                        inner = expand(x.value)
+                        if not isinstance(inner, (ast.Tuple, ast.List)):
+                            return None
+                        out.extend(inner.elts)
+                    else:
+                        y = expand(x)
+                        if y is None:
+                            return None
+                        out.append(y)
+                return ast.Tuple(elts=out, ctx=ast.Load())
+            return e
+        v = expand(copy.deepcopy(item.body[-1].value))
+        if v is None:
+            return None
+        for k in ks:
+            keys.append(ast.Constant(value=k))
+            vals.append(v)
+    if not keys or raise_body is None:
+        return None
+    return ast.fix_missing_locations(ast.Dict(keys=keys, values=vals)), raise_body
+
+
 def _dict_dispatch(body, var, mod_globals=None, mod_funcs=None, mod_classes=None):
     """The table form of the same dispatch.  Look-ups of ``var`` in literal dicts with string keys
     (local, or module-level when ``mod_globals`` is given), directly or through a module-level
@@ -294,6 +416,12 @@ def _dict_dispatch(body, var, mod_globals=None, mod_funcs=None, mod_classes=None
     accessors = {}
     for name, fn in (mod_funcs or {}).items():
         r = _accessor_table(fn, tables)
+        if r is None:
+            # an accessor written as a chain `if p == "a": return X, Y ... raise`: the same as a table with those rows
+            c = _if_chain_accessor(fn)
+            if c is not None and _str_dict(c[0]):
+                tables["__rows_of_" + name] = c[0]
+                r = ("__rows_of_" + name, c[1])
         if r is not None:
             accessors[name] = r
     per_key = {}
